@@ -238,10 +238,18 @@ func runFraming(r *core.Run) {
 	}
 	var cd codec.Codec
 	cname := "CMPPCodec"
+	// the codec types are plain exported structs: a value that was never passed through its constructor is a codec too
+	zeroValue := !exhaustive && c.Prob(1, 3)
 	if codecIdx == 0 {
 		cd = codec.NewCMPPCodec()
+		if zeroValue {
+			cd = new(codec.CMPPCodec)
+		}
 	} else {
 		cd = codec.NewSMPPCodec()
+		if zeroValue {
+			cd = new(codec.SMPPCodec)
+		}
 		cname = "SMPPCodec"
 	}
 	ename := "Decode"
